@@ -1,6 +1,7 @@
 import WcModel.Driver.Parse
 import WcModel.Driver.Spec
 import WcModel.Model.Comp
+import WcModel.Model.Strip
 /-
   K1': the tidy compiler agrees with the faithful port, as regex ASTs modulo
   (a) association of concatenation and empty units, (b) how a class member is spelt
@@ -70,6 +71,63 @@ def handleTidy : List String → Option String
           let a := canon tidy
           let b := canon r
           if a = b then pure "ok same" else pure s!"ok diff {reSexp a} {reSexp b}"
+  | _ => none
+
+end WcModel.Driver
+
+namespace WcModel.Driver
+open WcModel.Proto
+
+def parseRe (flags : Nat) (isBytes : Bool) (pat : List Char) : Except String Re :=
+  match parsePattern flags isBytes pat with
+  | .error _ => .error "ValueError"
+  | .ok parsed =>
+    match parsed.toRe with
+    | none => .error "ReError"
+    | some r => .ok r
+
+/-- `cert <flagsA> <bytesA> <flagsB> <bytesB> <pattern>`: language-equality certificate
+    (`Re.strip` of the two regexes equal ⇒ same full matches for every subject,
+    `Re.fullMatch_of_strip_eq`) → `ok same` | `ok diff <A> <B>` | `err <A-kind> <B-kind>` -/
+def handleCert : List String → Option String
+  | [fa, ba, fb, bb, p] => do
+    let fa ← fa.toNat?
+    let ba ← decBool ba
+    let fb ← fb.toNat?
+    let bb ← decBool bb
+    let pat ← decStr p
+    match parseRe fa ba pat, parseRe fb bb pat with
+    | .ok ra, .ok rb =>
+      if ra.strip = rb.strip then pure "ok same"
+      else pure s!"ok diff {reSexp ra.strip} {reSexp rb.strip}"
+    | .error e, .ok _ => pure s!"err {e} ok"
+    | .ok _, .error e => pure s!"err ok {e}"
+    | .error e1, .error e2 => pure s!"err {e1} {e2}"
+  | _ => none
+
+def Re.countCaps : Re → Nat
+  | .cap r => 1 + Re.countCaps r
+  | .gcap r => Re.countCaps r
+  | .grp r => Re.countCaps r
+  | .cat a b => Re.countCaps a + Re.countCaps b
+  | .alt a b => Re.countCaps a + Re.countCaps b
+  | .opt r => Re.countCaps r
+  | .star _ r => Re.countCaps r
+  | .plus r => Re.countCaps r
+  | .rep _ _ r => Re.countCaps r
+  | .look _ r => Re.countCaps r
+  | .flags _ _ r => Re.countCaps r
+  | _ => 0
+
+/-- `caps <flags> <isBytes> <pattern>` → `ok <number of translate capture groups>` -/
+def handleCaps : List String → Option String
+  | [fl, b, p] => do
+    let fl ← fl.toNat?
+    let b ← decBool b
+    let pat ← decStr p
+    match parseRe fl b pat with
+    | .ok r => pure s!"ok {Re.countCaps r}"
+    | .error e => pure s!"err {e}"
   | _ => none
 
 end WcModel.Driver
